@@ -394,6 +394,10 @@ func TestVerifC14Engine(t *testing.T) {
 		fmt.Fprintln(w, string(b))
 	}
 
+	// the VM stub: every contract call / deploy succeeds without effects and without fee
+	contract.StubVM = func(kind string, cs *statedb.ContractState, payload, id []byte) (string, []*types.Event, string, *big.Int, error) {
+		return "", nil, "", new(big.Int), nil
+	}
 	var (
 		curGroup = -1
 		bs       *state.BlockState
@@ -414,6 +418,8 @@ func TestVerifC14Engine(t *testing.T) {
 			consensus.SetCurConsensus("dpos")
 			types.InitGovernance("dpos", c.Public)
 		}
+		pubNet = c.Public // chain.IsPublic(): executeTx validates REDEPLOY etc. against it
+		contract.PubNet = c.Public
 		bi := types.NewBlockHeaderInfoFromPrevBlock(g, 1000, types.DummyBlockVersionner(c.Fork))
 		if c.BlockNo > 0 {
 			bi.No = c.BlockNo
@@ -422,7 +428,7 @@ func TestVerifC14Engine(t *testing.T) {
 		if c.Group != curGroup {
 			curGroup = c.Group
 			bs = cs.sdb.NewBlockState(g.GetHeader().GetBlocksRootHash(), state.SetPrevBlockHash(g.BlockHash()))
-			bs.SetGasPrice(big.NewInt(0))
+			bs.SetGasPrice(system.GetGasPrice())
 			bs.Receipts().SetHardFork(cs.cfg.Hardfork, bi.No)
 			// the system parameters are process globals: reload them from the genesis state
 			if scs0, err := statedb.GetSystemAccountState(bs.StateDB); err == nil {
@@ -451,6 +457,11 @@ func TestVerifC14Engine(t *testing.T) {
 		}
 		tx := &types.Tx{Body: &types.TxBody{Nonce: nonce, Account: a.addr, Recipient: []byte(c.Recipient),
 			Amount: amt.Bytes(), Payload: payload, Type: types.TxType(c.Type), ChainIdHash: cidh}}
+		for i, ac := range accts { // recipient "@A<i>": the raw address of engine account i
+			if c.Recipient == fmt.Sprintf("@A%d", i) {
+				tx.Body.Recipient = ac.addr
+			}
+		}
 		if len(tx.Body.Recipient) == 0 {
 			tx.Body.Recipient = nil
 		}
@@ -522,6 +533,12 @@ func TestVerifC14Engine(t *testing.T) {
 
 		// the stateful validators exactly as mempool.validateTx dispatches them
 		o.VState = c14outcome(func() error {
+			// mempool.validateTx: sender-state checks first, for every tx type
+			if ns, err := bs.StateDB.GetAccountState(types.ToAccountID(a.addr)); err == nil {
+				if err := ttx.ValidateWithSenderState(ns, system.GetGasPrice(), c.Fork); err != nil && err != types.ErrTxNonceToohigh {
+					return err
+				}
+			}
 			if tx.Body.Type != types.TxType_GOVERNANCE {
 				return nil
 			}
@@ -547,11 +564,7 @@ func TestVerifC14Engine(t *testing.T) {
 		})
 
 		nrc := len(bs.Receipts().Get())
-		if tx.Body.Type == types.TxType_GOVERNANCE {
-			o.Exec = c14outcome(func() error { return exec(bs, types.NewTransaction(tx)) })
-		} else {
-			o.Exec = "SKIP"
-		}
+		o.Exec = c14outcome(func() error { return exec(bs, types.NewTransaction(tx)) })
 		if rs := bs.Receipts().Get(); o.Exec == "OK" && len(rs) == nrc+1 {
 			o.Exec = "OK " + rs[nrc].Status + " " + rs[nrc].Ret
 		}
